@@ -1,6 +1,107 @@
 import DriverOps.Common
-/- driver ops with prefix "dt." (owned by the Data model) -/
-open Lean Lasio
+/- driver ops with prefix "dt." (owned by the Data model)
 
-def handleData (op : String) (j : Json) : Except String Json :=
-  throw s!"op {op} not implemented"
+"dt.read"  {"lines":[raw lines with their '\n'], "first":n, "last":n, "engine":"numpy"|"normal", "null_policy":"strict"|"none",
+            "wrap_declared":bool, "wrapped":text, "null":float-text|null, "dlm":"SPACE"|"TAB"|"COMMA", "declared":n,
+            "floats":{token: float-text}}
+   → {"ok":{"engine":"numpy"|"normal","columns":[["f",[float texts]] | ["s",[texts]] …],"slots":[j | -1 …]}}
+   | {"err":"ReshapeError"|"IndexError"|"Other"} | "unmodelled"   (any other engine / null policy / delimiter)
+"dt.subs"  {"line":text, "comma":bool, "hyphen":bool, "dot":bool} → text           (the read substitutions, in order)
+"dt.split" {"dlm":"SPACE"|"TAB"|"COMMA"|"PY", "line":text} → [tokens]              ("PY" = str.split())
+"dt.sniff" {"lines":[…], "first":n, "last":n, "dlm":…, "comma":bool, "hyphen":bool, "dot":bool} → {"count": n | -1, "hyphen": bool}
+"dt.null"  {"use":bool, "null":float-text|null, "columns":[["f"|"s",[cells]]…]} → [["f"|"s",[cells]]…]     (applyNull)
+-/
+open Lean Lasio Lasio.Dt
+
+def dtGetDlm (s : String) : Option Dlm :=
+  match s with
+  | "SPACE" => some .space | "TAB" => some .tab | "COMMA" => some .comma | _ => none
+
+def dtGetFloats (j : Json) : Except String FloatTable := do
+  let o ← j.getObj?
+  o.foldl (fun acc k v => do
+    let l ← acc
+    let t ← getS v
+    pure ((k.toList, t) :: l)) (pure [])
+
+def dtJColumn : Column → Json
+  | .floats c => Json.arr #[Json.str "f", jlist jstr c]
+  | .text c => Json.arr #[Json.str "s", jlist jstr c]
+
+def dtGetColumn (j : Json) : Except String Column := do
+  let a ← arr j
+  let k ← (a[0]!).getStr?
+  let cells ← getList getS a[1]!
+  pure (if k == "f" then .floats cells else .text cells)
+
+def dtJSlot : Slot → Json
+  | .declared j => jnat j
+  | .extra => jint (-1)
+
+def dtJErr : DErr → Json
+  | .reshapeError => Json.str "ReshapeError"
+  | .indexError => Json.str "IndexError"
+  | .other => Json.str "Other"
+
+def dtGetSubs (j : Json) : Except String Subs := do
+  pure ⟨← (← fld j "comma").getBool?, ← (← fld j "hyphen").getBool?, ← (← fld j "dot").getBool?⟩
+
+def dtOptStr (j : Json) : Except String (Option Str) :=
+  match j with
+  | .null => pure none
+  | _ => do pure (some (← getS j))
+
+def handleData (op : String) (j : Json) : Except String Json := do
+  match op with
+  | "dt.read" =>
+    let lines ← getList getS (← fld j "lines")
+    let first ← (← fld j "first").getNat?
+    let last ← (← fld j "last").getNat?
+    let engine ← (← fld j "engine").getStr?
+    let np ← (← fld j "null_policy").getStr?
+    let wd ← (← fld j "wrap_declared").getBool?
+    let wrapped ← fldS j "wrapped"
+    let null ← dtOptStr (← fld j "null")
+    let dlm ← (← fld j "dlm").getStr?
+    let declared ← (← fld j "declared").getNat?
+    let ft ← dtGetFloats (← fld j "floats")
+    let eng : Option Engine := match engine with | "numpy" => some .numpy | "normal" => some .normal | _ => none
+    let pol : Option NullPolicy := match np with | "strict" => some .strict | "none" => some .none | _ => none
+    match eng, pol, dtGetDlm dlm with
+    | some e, some p, some d =>
+      match readData ⟨e, p⟩ lines first last ⟨wd, wrapped, null, d⟩ declared ft with
+      | .ok (used, curves) =>
+        pure (Json.mkObj [("ok", Json.mkObj [
+          ("engine", Json.str (match used with | .numpy => "numpy" | .normal => "normal")),
+          ("columns", jlist (fun sc => dtJColumn sc.2) curves),
+          ("slots", jlist (fun sc => dtJSlot sc.1) curves)])])
+      | .error e => pure (Json.mkObj [("err", dtJErr e)])
+    | _, _, _ => pure (Json.str "unmodelled")
+  | "dt.subs" =>
+    let sb ← dtGetSubs j
+    pure (jstr (applySubs sb (← fldS j "line")))
+  | "dt.split" =>
+    let dlm ← (← fld j "dlm").getStr?
+    let line ← fldS j "line"
+    if dlm == "PY" then pure (jlist jstr (pySplit line))
+    else match dtGetDlm dlm with
+      | some d => pure (jlist jstr (splitLine d line))
+      | none => pure (Json.str "unmodelled")
+  | "dt.sniff" =>
+    let lines ← getList getS (← fld j "lines")
+    let first ← (← fld j "first").getNat?
+    let last ← (← fld j "last").getNat?
+    let dlm ← (← fld j "dlm").getStr?
+    let sb ← dtGetSubs j
+    match dtGetDlm dlm with
+    | some d =>
+      let r := sniffColumns sb d lines first last
+      pure (Json.mkObj [("count", match r.count with | some n => jnat n | none => jint (-1)),
+                        ("hyphen", Json.bool r.hyphenFired)])
+    | none => pure (Json.str "unmodelled")
+  | "dt.null" =>
+    let use ← (← fld j "use").getBool?
+    let null ← dtOptStr (← fld j "null")
+    let cols ← getList dtGetColumn (← fld j "columns")
+    pure (jlist dtJColumn (applyNull use null cols))
+  | _ => throw s!"op {op} not implemented"
